@@ -38,6 +38,18 @@ theorem sget_sset_other (k k' : UInt32) (v : Stream) (ss : Streams) (h : k' ≠ 
 @[simp] theorem tsUpdate_outSsrc (o : Opts) (st : Stream) (t : UInt32) : (tsUpdate o st t).1.outSsrc = st.outSsrc := by
   unfold tsUpdate; split <;> (try split) <;> simp
 
+/-- after an in-order packet the stream remembers that packet's timestamp -/
+theorem tsUpdate_inorder_last (o : Opts) (st : Stream) (p : Pkt) (h : InOrder st p) :
+    (tsUpdate o st p.ts).1.lastSrcTs = some p.ts := by
+  unfold tsUpdate
+  unfold InOrder at h
+  split
+  · rename_i last hl
+    rw [hl] at h
+    simp at h
+    simp [h]
+  · split <;> rfl
+
 theorem cur_of_some (c : Cfg) (ss : Streams) (p : Pkt) (a : UInt16) (b : UInt32) (st : Stream)
     (h : sget p.ssrc ss = some st) : cur c ss p a b = st := by simp [cur, h]
 
